@@ -39,8 +39,14 @@ class GridSim(sim.SimHarness):
         obs.append(holds('grid.first_instant_is_zero', len(rec['time']) > 0))
         if rec['time']:
             obs.append(eq('grid.starts_at_zero', rec['time'][0], 0))
+        # each run() call lays its own grid: t_start + j*dt of that call (the first call starts at 0)
         for k in range(1, len(rec['time'])):
-            obs.append(eq('grid.uniform[k=%d]' % k, rec['time'][k], k * dt, tol=1e-9))
+            exp = k * dt
+            for r in rec['runs']:
+                s = r['start']
+                if (1 if s == 0 else s) <= k < r['end']:
+                    exp = T(r['dt']) * k if s == 0 else T(rec['time'][s - 1]) + (k - s + 1) * T(r['dt'])
+            obs.append(eq('grid.uniform[k=%d]' % k, rec['time'][k], exp, tol=1e-9))
         return obs
 
 
@@ -233,6 +239,10 @@ def specs(tier, seed):
     S.append(('r', 'T1', (('schedule', (('run', 2), ('reset',), ('reinit',), ('run', 3))),)))
     S.append(('r', 'T4', (('schedule', (('run', 2), ('reset',), ('reinit',), ('run', 2), ('run', 2))),)))
     S.append(('r', 'T1', (('schedule', (('run', 2), ('run', 2, 'hour'))),)))
+    # dt and the simulation time of one call given in different units (fresh run, continuation, another dt value)
+    S.append(('r', 'T1', (('schedule', (('run', 3, 'ms', 1, 'sec'),)), ('tag', ':dt_ms_T_sec'))))
+    S.append(('r', 'T1', (('schedule', (('run', 2), ('run', 3, 'ms', 1, 'sec'))), ('tag', ':cont_dt_ms_T_sec'))))
+    S.append(('r', 'T3', (('schedule', (('run', 2, 'sec', 1, 'min'), ('run', 2, 'min', 2, 'ms'))), ('tag', ':cont_dt_min_T_ms'))))
     ns = (2, 3, 7, 10, 30) if tier == 'quick' else tuple(range(2, 101))
     for n in ns:
         S.append(('fp', n, 'sec', 'mul', tier, 0))
@@ -261,7 +271,7 @@ JOB_CAP = {'quick': 900, 'thorough': 3000}
 REQUIRED_TRIGGERS = {'quick': ('grid.number_of_instants', 'grid.uniform', 'grid.stopped_run_is_a_prefix', 'fp.grid')}
 BOUNDS = {
     'quick': 'R mode: Solver.run with a symbolic dt (every parameter symbolic), K in {2,3}, continuation 2+2; concrete dt K=6, 2+3; stop prefix, reset + rerun (+ continuation) on the same Solver, '
-             'dt in ms, continuation in hours; Float64 mode through the real Solver.run on an equilibrium configuration: one '
+             'dt in ms, continuation in hours, dt and T of one call in different units (fresh and continued, other dt value); Float64 mode through the real Solver.run on an equilibrium configuration: one '
              'exploration per n in {2,3,7,10,30}, dt ANY double in [1e-4,1e4], T = dt*n through TimeInterval.__mul__; decimal '
              'dt = m/10^e with m <= 500, e in {1,2} and T the decimal literal n*m/10^e for n = 7; units sec (all n), '
              'min/hour/ms (n=10); continuation after a first run of 2 and 7 steps; 90 s (240 s decimal) per query, z3 raced against cvc5',
